@@ -427,6 +427,10 @@ TraceClean ==
      /\ stats' = [stats EXCEPT !["cleans"] = @ + 1,
                                !["clean_stale_entries"] = @ + Cardinality(UNION {MayList(p) : p \in usedM}),
                                !["clean_stale_files"] = @ + Cardinality({p \in cands : ~FProt(p)}),
+                               !["cleans_with_protected"] = @ + (IF {p \in cands : FProt(p)} # {} \/
+                                    UNION {{h \in EE0[p] : ~IsAddr(p, h) /\ Prot(h)} : p \in usedM} # {} THEN 1 ELSE 0),
+                               !["cleans_with_stale"] = @ + (IF {p \in cands : ~FProt(p)} # {} \/
+                                    UNION {MayList(p) : p \in usedM} # {} THEN 1 ELSE 0),
                                !["clean_protected"] = @ + Cardinality({p \in cands : FProt(p)})
                                     + Cardinality(UNION {{h \in EE0[p] : ~IsAddr(p, h) /\ Prot(h)} : p \in usedM})]
   /\ UNCHANGED <<cvars, drift, hid, program, owner, done>>
@@ -442,7 +446,8 @@ TraceInit ==
   /\ program = {} /\ owner = <<>> /\ done = FALSE
   /\ stats = [histories |-> 0, calls |-> 0, passed |-> 0, failed |-> 0, added |-> 0, updated |-> 0,
               any |-> 0, state_checked |-> 0, skips |-> 0, cleans |-> 0,
-              clean_stale_entries |-> 0, clean_stale_files |-> 0, clean_protected |-> 0]
+              clean_stale_entries |-> 0, clean_stale_files |-> 0, clean_protected |-> 0,
+              cleans_with_protected |-> 0, cleans_with_stale |-> 0]
   /\ mode = [ci |-> FALSE, updvar |-> "unset", count |-> 1, run |-> ""]
   /\ slot = <<>> /\ order = <<>> /\ alone = <<>> /\ ord = <<>> /\ sord = <<>> /\ sused = <<>>
   /\ addrM = {} /\ addrS = {} /\ usedF = {} /\ visitedD = {} /\ alias = <<>> /\ cnt = ZeroCnt /\ nskip = 0 /\ ran = {} /\ skipSet = {} /\ fmtOf = <<>>
